@@ -49,7 +49,9 @@ _GROW = ['setitem_array', 'setitem_list', 'setitem_scalar', 'setitem_generator',
          'extend_items_raising_generator', 'columns_append_by_user']
 _DERIVE = ['to_frame', 'to_frame_go', 'to_frame_he', 'frame_init', 'framego_init', 'framego_from_static', 'select_cols', 'relabel', 'rename',
            'sort_columns', 'reindex', 'operator', 'iter_partial', 'set_index', 'group', 'transpose', 'columns_copy', 'columns_index_init',
-           'columns_values', 'column_series', 'pickle', 'deepcopy', 'iloc_rows', 'drop', 'astype']
+           'columns_values', 'column_series', 'pickle', 'deepcopy', 'iloc_rows', 'drop', 'astype',
+           # functional updates of a grow-only frame return a grow-only frame: it must not share the columns / blocks of its source
+           'assign', 'assign_iloc', 'assign_apply', 'fillna', 'shift', 'roll', 'insert_after', 'head', 'isna']
 _READS = ['columns_values', 'values', 'shape', 'repr', 'dtypes', 'columns_len', 'loc_last']
 
 
@@ -476,6 +478,24 @@ def _derive(ctx, f, model, what, seed):
             return [(what, f.drop[model.cols[0]])]
         if what == 'astype' and nc:
             return [(what, f.astype(object))]
+        if what == 'assign' and nc:
+            return [(what, f.assign[model.cols[rng.randrange(nc)]](0))]
+        if what == 'assign_iloc' and nc and len(model.rows):
+            return [(what, f.assign.iloc[0, rng.randrange(nc)](0)), ('assign_loc_rows', f.assign.loc[f.index[0]:](0))]
+        if what == 'assign_apply' and nc:
+            return [(what, f.assign[model.cols[0]].apply(_identity))]
+        if what == 'fillna':
+            return [(what, f.fillna(0))]
+        if what == 'shift':
+            return [(what, f.shift(1, fill_value=0))]
+        if what == 'roll':
+            return [(what, f.roll(1, 1))]
+        if what == 'insert_after' and nc and all(not isinstance(c, tuple) for c in model.cols):
+            return [(what, f.insert_after(model.cols[-1], sf.Series(np.arange(len(model.rows)), index=f.index, name='__inserted__')))]
+        if what == 'head':
+            return [(what, f.head(1)), ('tail', f.tail(1))]
+        if what == 'isna':
+            return [(what, f.isna())]
     except TypeError as e:
         ctx.tally('derivation_raised', f'{what}:{type(e).__name__}')
     except Exception as e:
@@ -485,6 +505,10 @@ def _derive(ctx, f, model, what, seed):
 
 def _lab(x):
     return ('L', x)
+
+
+def _identity(x):
+    return x
 
 
 def _snap_any(x):
